@@ -111,4 +111,53 @@ theorem scan_end_to_end_q (str : List Nat) (base0 : Nat) (hb : base0 ≤ 36) (bi
   · intro k hk hlt
     exact (dval_cmp l hbp k).2.1.2 (hadj.2.2 k hk ((dval_lt_iff _ _).1 hlt))
 
+/-! ### integers up to 2^53 are representable, hence read exactly -/
+
+/-- every integer 0 < v ≤ 2^53 is the value of a finite double -/
+theorem int_representable (v : Nat) (h0 : 0 < v) (h : v ≤ 2 ^ 53) : ∃ k, k ≤ infBits ∧ ulps k = v * 2 ^ 1074 := by
+  rcases Nat.lt_or_ge v (2 ^ 53) with hlt | hge
+  · refine ⟨ldexpBits v 0, ldexpBits_le _ _, ?_⟩
+    have hd := ldexp_exact_int v (Nat.ne_of_gt h0) hlt
+    have hl := bitLen_le_53 v hlt
+    unfold ulps
+    rw [hd]
+    simp only
+    have hx : (-((53 - bitLen v : Nat) : Int) + 1074).toNat = 1074 - (53 - bitLen v) := by omega
+    rw [hx, Nat.mul_assoc, ← pow_add, show 53 - bitLen v + (1074 - (53 - bitLen v)) = 1074 by omega]
+  · have hv : v = 2 ^ 53 := Nat.le_antisymm h hge
+    refine ⟨ldexpBits (2 ^ 52) 1, ldexpBits_le _ _, ?_⟩
+    have hd := ldexp_exact_normal (2 ^ 52) 1 (le_refl _) (by norm_num) (by norm_num) (by norm_num)
+    unfold ulps
+    rw [hd, hv]
+    simp only
+    rw [show ((1 : Int) + 1074).toNat = 1 + 1074 by rfl, pow_add, ← Nat.mul_assoc]
+    norm_num
+
+/-- ★ a text denoting an INTEGER `M·b^E` (E ≥ 0) with 0 < value ≤ 2^53 reads as exactly that integer -/
+theorem integer_read_exact_q (str : List Nat) (base0 : Nat) (hb : base0 ≤ 36) (bits : Nat)
+    (h : scanNumberBaseW str base0 = some bits) (hE : 0 ≤ (denote str base0).E)
+    (h0 : 0 < (denote str base0).M * (denote str base0).b ^ (denote str base0).E.toNat)
+    (h53 : (denote str base0).M * (denote str base0).b ^ (denote str base0).E.toNat ≤ 2 ^ 53) :
+    ∃ mag, bits = withSign (denote str base0).neg mag ∧
+      dval mag = (((denote str base0).M * (denote str base0).b ^ (denote str base0).E.toNat : Nat) : ℚ) := by
+  obtain ⟨mag, _, hbits, hex, _, _⟩ := scan_end_to_end_q str base0 hb bits h
+  have hbp := denote_b_pos str base0
+  generalize denote str base0 = l at *
+  obtain ⟨k, hk, hu⟩ := int_representable _ h0 h53
+  have hval : l.absVal = ((l.M * l.b ^ l.E.toNat : Nat) : ℚ) := by
+    unfold Lit.absVal
+    obtain ⟨n, hn⟩ := Int.eq_ofNat_of_zero_le hE
+    rw [hn]
+    have e1 : ((n : Int)).toNat = n := by omega
+    rw [e1, zpow_natCast]
+    push_cast
+    ring
+  have hk' : dval k = l.absVal := by
+    rw [hval]
+    unfold dval
+    rw [hu]
+    push_cast
+    field_simp
+  exact ⟨mag, hbits, by rw [hex k hk hk', hval]⟩
+
 end JanetModel.Strtod
